@@ -221,17 +221,15 @@ func init() {
 		if f := c.fn("p2p/conn", "SecretConnection.Read"); f != nil {
 			fk := funcKey(f)
 			n := 0
-			for _, b := range f.Blocks {
-				for _, in := range b.Instrs {
-					sl, ok := in.(*ssa.Slice)
-					if !ok || sl.High == nil || !strings.Contains(w.expr(sl.High), "Uint32(") {
-						continue
-					}
-					n++
-					c.guards(f, sl, fk+" :: slice the frame by the received length", 0,
-						guardCmp("chunk length within dataMaxSize", `encoding/binary\.LittleEndian\.Uint32\(.*\)`, "<=", max),
-						guardRe("frame authenticated (Open succeeded)", `^nil\(&err\)$|^nil\(.*\.Open\(.*\)#1\)$`))
+			for _, di := range w.deepInstrs(f, 2) { // also in a frame-decoding helper split off Read
+				sl, ok := di.in.(*ssa.Slice)
+				if !ok || sl.High == nil || !strings.Contains(w.expr(sl.High), "Uint32(") {
+					continue
 				}
+				n++
+				c.guards(f, sl, fk+" :: slice the frame by the received length", 0,
+					guardCmp("chunk length within dataMaxSize", `encoding/binary\.LittleEndian\.Uint32\(.*\)`, "<=", max),
+					guardRe("frame authenticated (Open succeeded)", `^nil\(&err\)$|^nil\(.*\.Open\(.*\)#1\)$`))
 			}
 			c.Check(n >= 1, fk+" :: length-driven slice found", w.pos(f.Pos()), fmt.Sprintf("%d", n), "no slice by received length found")
 			// leftover bytes are copied, not aliased to the pooled buffer
